@@ -40,6 +40,9 @@ structure Request where
   authority : String := ""
   scheme : String := "http"
   headers : List (String × String) := []
+  /-- Verified JWT payload as the `envoy.filters.http.jwt_authn` dynamic metadata exposes it: claim path ->
+      values (a string claim is a one-element list). -/
+  claims : List (List String × List String) := []
   deriving Repr
 
 /-- Header-map view of a request: the three pseudo-headers Istio matches on are always present. -/
@@ -105,6 +108,25 @@ def QueryMatcher.eval (re : Regex) (q : QueryMatcher) (req : Request) : Bool :=
     | some v => sp.eval re v
     | none => false
 
+/-- `MetadataMatcher` on the JWT payload as Istio emits it (`MetadataMatcherForJWTClaims`): the claim at
+    `path` is a string matching the pattern or a list containing a matching string. -/
+structure MetaMatcher where
+  path : List String
+  spec : StrSpec
+  invert : Bool := false
+  deriving DecidableEq, Repr
+
+def lookupClaim (l : List (List String × List String)) (p : List String) : Option (List String) :=
+  match l with
+  | [] => none
+  | e :: t => if e.1 = p then some e.2 else lookupClaim t p
+
+/-- Absent metadata does not match; `invert` inverts the result (API docs of `MetadataMatcher.invert`). -/
+def MetaMatcher.eval (re : Regex) (mm : MetaMatcher) (req : Request) : Bool :=
+  (match lookupClaim req.claims mm.path with
+   | some vs => vs.any (fun v => mm.spec.eval re v)
+   | none => false) != mm.invert
+
 inductive PathSpec where
   | pfx (p : String)            -- `prefix`
   | path (p : String)           -- `path` (exact)
@@ -127,14 +149,16 @@ structure RouteMatch where
   caseSensitive : Bool := true
   headers : List HeaderMatcher := []
   query : List QueryMatcher := []
+  metadata : List MetaMatcher := []     -- `dynamic_metadata`
   deriving DecidableEq, Repr
 
-/-- A route matches when its path specifier, every header matcher and every query-parameter
-    matcher match (conjunction). -/
+/-- A route matches when its path specifier, every header matcher, every query-parameter matcher and
+    every dynamic-metadata matcher match (conjunction). -/
 def RouteMatch.eval (re : Regex) (m : RouteMatch) (req : Request) : Bool :=
   m.path.eval re m.caseSensitive req.path
     && m.headers.all (fun h => h.eval re req)
     && m.query.all (fun q => q.eval re req)
+    && m.metadata.all (fun mm => mm.eval re req)
 
 /-! ## Actions -/
 
@@ -199,7 +223,7 @@ structure VirtualHost where
   domains : List String
   routes : List Route
   requireTls : Bool := false     -- `require_tls: ALL`
-  deriving Repr
+  deriving DecidableEq, Repr
 
 /-- Domain classes of `VirtualHost.domains`. -/
 def isSuffixWildcard (d : String) : Bool := d.length > 1 && hasPrefix "*" d
